@@ -115,5 +115,10 @@ impl<DB: DatabaseRef> Scheduler<DB> {
         // assumed: incarnation counters never reach usize::MAX (one increment per execution attempt)
         &&& forall|i: int, st: TxState| 0 <= i < self.block_size && #[trigger] self.tx_states@[i].inv(st) ==> st.incarnation < usize::MAX
         &&& self.abort.may_reset() == false
+        // the replay EVM may only be built from the scheduler's own configuration (call permission of build_evm)
+        &&& forall|c: CfgEnv, e: BlockEnv, f: bool| #[trigger] build_args_ok(c, e, f) <==> (c == self.cfg && e == self.env && f == self.config.delegated_safety.forbid_delegated_create)
     }
 }
+
+/// call permission of the sequential path's build_evm: which (cfg, block env, guard flag) it may be built from
+pub uninterp spec fn build_args_ok(cfg: CfgEnv, env: BlockEnv, forbid: bool) -> bool;
